@@ -513,7 +513,11 @@ func rulesC06New(cx *Ctx, enum *enumInfo, stores []*ssa.Store, collecting map[st
 								return []string{"install:gnark"}
 							}
 						}
-						if n, ok := v.X.Type().(*types.Named); ok && n.Obj().Pkg() != nil && strings.HasPrefix(n.Obj().Pkg().Path(), ModPath) {
+						xt := v.X.Type()
+						if pt, ok := xt.(*types.Pointer); ok {
+							xt = pt.Elem() // a pointer to the module's own checker type (pointer receiver, constructor)
+						}
+						if n, ok := xt.(*types.Named); ok && n.Obj().Pkg() != nil && strings.HasPrefix(n.Obj().Pkg().Path(), ModPath) {
 							return []string{"install:own:" + n.Obj().Name()}
 						}
 					case *ssa.Call:
